@@ -10,8 +10,8 @@ use std::collections::{BTreeMap, BTreeSet};
 use crate::driver::{Ctx, Report};
 use crate::gen::*;
 use crate::rng::Gen;
-use crate::suite::{Grp, SuiteOps, ID_SUITES, SIM_SUITES};
-use crate::world::{run_world, IdSpec, Op, Ref, RunResult, Tape, Violation, WIds, World};
+use crate::suite::{Grp, Kind, SuiteOps, ID_SUITES, SIM_SUITES};
+use crate::world::{run_world, IdSpec, Op, Part, Ref, RunResult, Tape, Violation, WIds, World};
 
 pub const OWN: &[&str] = &[
     "client_accept_unexpected",
@@ -151,8 +151,9 @@ pub fn gen_world(seed: u64, idx: u64, s: &dyn SuiteOps, shared_tapes: bool, samp
     let mut responses: Vec<u32> = sessions.iter().map(|s| s.1).collect();
     responses.push(old.resp);
     let mut fins: Vec<u32> = vec![old.fin];
+    let mut fin_session: Vec<usize> = vec![sessions.len()]; // index into sstates of the session a finalization answers
     let mut n = 0usize;
-    for rs in &responses {
+    for (ri, rs) in responses.iter().enumerate() {
         for (cst, _, pw, cids) in &clients {
             n += 1;
             if let Some(k) = sample {
@@ -165,6 +166,7 @@ pub fn gen_world(seed: u64, idx: u64, s: &dyn SuiteOps, shared_tapes: bool, samp
             let vr = if g.chance(1, 3) { via(&mut g) } else { crate::suite::Codec::Mem };
             adv.push(Op::LoginFinish { out, st: Ref::via(*cst, vs), pw: pw.clone().into(), resp: Ref::via(*rs, vr), ctx: ctx.clone().map(Into::into), ids: cids.clone(), ksf: ksf.clone() });
             fins.push(out);
+            fin_session.push(ri);
         }
     }
     let _ = n;
@@ -175,6 +177,50 @@ pub fn gen_world(seed: u64, idx: u64, s: &dyn SuiteOps, shared_tapes: bool, samp
         for st in &sstates {
             let vs = if g.chance(1, 8) { via(&mut g) } else { crate::suite::Codec::Mem };
             adv.push(Op::ServerFinish { st: Ref::via(*st, vs), fin: Ref::mem(*f) });
+        }
+    }
+    // the adversary also assembles messages from pieces of the ones it has seen
+    let lens = s.lens();
+    let whole = |id: u32| Part { id, from: 0, to: usize::MAX };
+    // (a) a finalization followed / preceded by another one, to the session it answers
+    for (fi, f) in fins.iter().enumerate() {
+        // the other half must exist whatever the clients decide: the old session's finalization
+        let _ = fi;
+        let other = old.fin;
+        let st = sstates[fin_session[fi]];
+        let parts = if g.chance(1, 2) { vec![whole(*f), whole(other)] } else { vec![whole(other), whole(*f)] };
+        adv.push(Op::ServerFinish { st: Ref::mem(st), fin: Ref::Splice { kind: Kind::CredFin, parts } });
+    }
+    // (b) responses cut at a field boundary: head of one session's response, tail of another's,
+    // delivered to the client either response was made for
+    let rf = crate::layout::fields(Kind::CredResp, &lens);
+    for _ in 0..24 {
+        let (a, bb) = (g.below(sessions.len()), g.below(sessions.len()));
+        let cut = rf[1 + g.below(rf.len() - 1)].off;
+        let (cst, _, pw, cids) = &clients[(if g.chance(1, 2) { a } else { bb } / (records.len() * 2)).min(clients.len() - 1)];
+        let out = b.id();
+        let resp = Ref::Splice { kind: Kind::CredResp, parts: vec![Part { id: sessions[a].1, from: 0, to: cut }, Part { id: sessions[bb].1, from: cut, to: usize::MAX }] };
+        adv.push(Op::LoginFinish { out, st: Ref::mem(*cst), pw: pw.clone().into(), resp, ctx: ctx.clone().map(Into::into), ids: cids.clone(), ksf: ksf.clone() });
+        // whatever it yields goes to both sessions
+        for k in [a, bb] {
+            adv.push(Op::ServerFinish { st: Ref::mem(sessions[k].0), fin: Ref::mem(out) });
+        }
+    }
+    // (c) requests: the blinded element of one client with the nonce and key share of another,
+    // answered under the first client's record; both clients try to finish with the answer
+    let qf = crate::layout::fields(Kind::CredReq, &lens);
+    for (x, y) in [(0usize, 3usize), (3, 0), (0, 2), (1, 0)] {
+        let st = b.id();
+        let msg = b.id();
+        let tape = stape(&mut b, "loginrespond");
+        let req = Ref::Splice { kind: Kind::CredReq, parts: vec![Part { id: clients[x].1, from: 0, to: qf[1].off }, Part { id: clients[y].1, from: qf[1].off, to: usize::MAX }] };
+        let who = [0usize, 1, 0, 2][x];
+        adv.push(Op::LoginRespond { st, msg, tape, setup: Ref::mem(setup), record: Some(Ref::mem(regs[who].0)), req, cred: regs[who].2.clone().into(), ctx: ctx.clone().map(Into::into), ids: regs[who].3.clone() });
+        for c in [x, y] {
+            let (cst, _, pw, cids) = &clients[c];
+            let out = b.id();
+            adv.push(Op::LoginFinish { out, st: Ref::mem(*cst), pw: pw.clone().into(), resp: Ref::mem(msg), ctx: ctx.clone().map(Into::into), ids: cids.clone(), ksf: ksf.clone() });
+            adv.push(Op::ServerFinish { st: Ref::mem(st), fin: Ref::mem(out) });
         }
     }
     let n_adv = adv.len();
@@ -256,7 +302,7 @@ pub fn judge(w: &World, r: &RunResult) -> Vec<Violation> {
 
 pub fn run(ctx: &Ctx) -> Report {
     let mut rep = Report::new(
-        "per world: 1 server, records {u1(pw1,a), u2(pw2,b), u3(pw1,b), u1 re-registered(pw1,a), none}, credential ids {a,b}, an old complete u1 login (replay source), live client sessions {pw1, pw2, wrong pw, pw1}; every request (4 live + old) -> every (record|none, cred) = 50 server sessions; every response (50 + old) -> every pending client = 204 client finishes; every finalization that may exist -> every server session; executed in a seeded random topological order with one shared RNG per party (flavour A) or label tapes + a second interleaving compared output-by-output (flavour B); then faults stop and every registered user must complete one honest login in four steps. Oracle: Model A on every finish, key agreement, pairwise-distinct session keys. Quick samples 1/4 of the client finishes on the P-384/P-521 key-exchange groups. Plus seeded random walks (40-120 random ops over 1-3 setups incl. a key-swapped one, 4 passwords, 3 credential ids incl. a whitespace twin, 5 identity sets, 4 contexts, 3 KSF spellings; every input a random existing item, random codecs, random crash/reload), judged by Model A",
+        "per world: 1 server, records {u1(pw1,a), u2(pw2,b), u3(pw1,b), u1 re-registered(pw1,a), none}, credential ids {a,b}, an old complete u1 login (replay source), live client sessions {pw1, pw2, wrong pw, pw1}; every request (4 live + old) -> every (record|none, cred) = 50 server sessions; every response (50 + old) -> every pending client = 204 client finishes; every finalization that may exist -> every server session; messages the adversary assembles from observed ones (a finalization followed/preceded by another one, to the session it answers; 24 responses cut at a field boundary between two sessions' responses; 4 requests with one client's blinded element and another's nonce and key share); executed in a seeded random topological order with one shared RNG per party (flavour A) or label tapes + a second interleaving compared output-by-output (flavour B); then faults stop and every registered user must complete one honest login in four steps. Oracle: Model A on every finish, key agreement, pairwise-distinct session keys. Quick samples 1/4 of the client finishes on the P-384/P-521 key-exchange groups. Plus seeded random walks (40-120 random ops over 1-3 setups incl. a key-swapped one, 4 passwords, 3 credential ids incl. a whitespace twin, 5 identity sets, 4 contexts, 3 KSF spellings; every input a random existing item, random codecs, random crash/reload), judged by Model A",
     );
     let mut suites: Vec<&'static dyn SuiteOps> = SIM_SUITES.to_vec();
     if !ctx.quick() {
